@@ -178,4 +178,36 @@ Proof.
   exact (halfcell_to_midpoint_wf E n ks l a b c w cnt wa cnta W Hln Hnd Hz B1 B2' B3 Zl Eh).
 Qed.
 
+(** ** collapse towards an end point of an INTERIOR edge (l | r): the driver is, for the topology, exactly three
+    steps in sequence -- the 2-unsew of the edge, the half-cell on the right (b1r -> r -> b0r) and the half-cell on
+    the left (b0l -> l -> b1l) -- between a read-only prefix (the stores before and after it agree on everything)
+    and a data-only suffix (same images and removal flags).  The theorems on the 2-unsew (C04) and on the two
+    half-cells (above and in CollapseTopo.v) therefore speak about the driver's intermediate stores. *)
+Lemma to_base_interior_split E n ks b0l l b1l b0r r b1r c w cnt vid w' cnt' :
+  r <> 0 ->
+  run E (collapse_edge_to_base n ks b0l l b1l b0r r b1r) c w cnt = (Done vid, w', cnt') ->
+  exists w3 c3 w4 c4 w5 c5 w6 c6, s_same w w3 /\
+    run E (two_unsew n ks l) c w3 c3 = (Done tt, w4, c4) /\
+    run E (collapse_halfcell_to_base n ks b1r r b0r) c w4 c4 = (Done tt, w5, c5) /\
+    run E (collapse_halfcell_to_base n ks b0l l b1l) c w5 c5 = (Done tt, w6, c6) /\
+    topo_eq w6 w'.
+Proof.
+  intros Hr0 Hr. unfold collapse_edge_to_base in Hr.
+  apply ro_stepN in Hr; [|apply wi_vertex_id]. destruct Hr as (lv & w1 & c1 & S1 & Hr).
+  apply ro_stepN in Hr; [|wi']. destruct Hr as (tv & w2 & c2 & S2 & Hr).
+  apply ro_stepN in Hr; [|wi']. destruct Hr as (ta & w3 & c3 & S3 & Hr).
+  assert (Er : (r =? 0) = false) by (apply N.eqb_neq; exact Hr0).
+  rewrite Er in Hr. cbn [negb] in Hr.
+  rewrite run_bind in Hr.
+  destruct (run E (two_unsew n ks l ;;; collapse_halfcell_to_base n ks b1r r b0r) c w3 c3) as [[[[]|e| |q] w5] c5] eqn:E45; try discriminate Hr.
+  rewrite run_bind in E45.
+  destruct (run E (two_unsew n ks l) c w3 c3) as [[[[]|e| |q] w4] c4] eqn:E4; try discriminate E45.
+  apply rd_stepY' in Hr.
+  rewrite run_bind in Hr.
+  destruct (run E (collapse_halfcell_to_base n ks b0l l b1l) c w5 c5) as [[[[]|e| |q] w6] c6] eqn:E6; try discriminate Hr.
+  exists w3, c3, w4, c4, w5, c5, w6, c6. split; [|split; [exact E4|split; [exact E45|split; [exact E6|]]]].
+  - eapply s_same_trans; [eapply s_same_trans|]; eassumption.
+  - apply Sdata_topo. intros v Hv. eapply writes_in_run; [|exact Hr|exact Hv]. wi'.
+Qed.
+
 End CollapseBase.
